@@ -5,16 +5,19 @@ package memory
 // Contracts for the snesvc verifier (/verif). Comment-only; compiled only with -tags verif.
 
 //@ func NewRAM
+//@   params data offset
 //@   property C11
 //@   ensures len(ret1.data) == len(data) && ret1.offset == offset
 
 //@ func (RAM).Read
+//@   params m address
 //@   property C11
 //@   requires address-m.offset < uint32(len(m.data)) && len(m.data) <= 0x1000000
 //@   ensures ret1 == m.data[address-m.offset]
 //@   assigns nothing
 
 //@ func (RAM).Write
+//@   params m address value
 //@   property C11
 //@   requires address-m.offset < uint32(len(m.data)) && len(m.data) <= 0x1000000
 //@   ensures m.data[address-m.offset] == value
